@@ -39,3 +39,11 @@ Proof. exact produced_entries_printable. Qed.
 Theorem C08_every_entry_printable_refuted :
   exists r w e, valid_param r = true /\ valid_param w = true /\ new_guessed r w = Ok e /\ entry_printable e = false.
 Proof. exists [12356%N], [12356%N]. eexists. repeat split; vm_compute; reflexivity. Qed.
+
+(** Known finding F20: RegisterWord accepts a reading with a character outside the text format's reading class (a digit, katakana,
+    kanji ...); the entry is saved and skipped when it is read back - it silently disappears at the next restart (it was never
+    convertible: the trie rejects such readings, C04_reject). *)
+Theorem C08_nonkana_reading_refuted :
+  exists r w, valid_param r = true /\ valid_param w = true /\ entry_printable (noun_entry false r w) = false.
+Proof. exists [65297%N], [20108%N]. repeat split; vm_compute; reflexivity. Qed.
+Print Assumptions C08_nonkana_reading_refuted.
